@@ -517,7 +517,7 @@ def check(pid, tier, seed, replay=None):
             with open(cf, "w") as f:
                 for l in lines:
                     f.write(l + "\n")
-            jobs.append((exes[prof], cf, getattr(gen, "SHARD_TIMEOUT", 600)))
+            jobs.append((exes[prof], cf, getattr(gen, "SHARD_TIMEOUT", 1800)))
         with Pool(min(NPROC, max(1, len(jobs)))) as pool:
             for casefile, iout, mout, cons, status in pool.imap_unordered(run_shard, jobs):
                 compare_shard(pid, casefile, iout, mout, status, oc, getattr(gen, "nontrivial_key", None), getattr(gen, "KEYS", None), getattr(gen, "REF_FROM_MODEL", False))
